@@ -519,6 +519,11 @@ class Gen:
         lo, hi = f.body_open + 1, f.body_close
         if f.key in self.skip_body and not c.external_body:
             self.lose(f, 'body annotations dropped: they no longer type-check against the current body')
+            if rs.find_loops(b, lo, hi):
+                # without its invariants a loop has no `decreases`; let the rest of the image be verified
+                # (termination of this function is then undecided and reported as such)
+                ind = re.match(r'[ \t]*', text[f.line_start:]).group(0)
+                edits.append((f.line_start, f.line_start, '%s#[verifier::exec_allows_no_decreases_clause]%s\n' % (ind, TAG)))
             return edits
         if c.external_body:
             # D8: body is outside the image; dropped, recorded
